@@ -102,6 +102,14 @@ def is_unit_enum_serialisation(e):
         else: return False
     return False
 
+def is_generic_err_unwrap(e):
+    """unwrap() of an explicit Err(StdError::generic_err(<text>)): the only such construction in the crate is the zero-amount refusal of
+    the marker-transfer builder (its message text is not part of the rule)"""
+    a = e.get('abort')
+    if not (a and a[0] == 'unwrap' and len(a) > 1 and isinstance(a[1], tuple) and a[1][0] == 'adt' and a[1][2] == 'Err' and a[1][3]): return False
+    x = a[1][3][0][1]
+    return isinstance(x, tuple) and x[0] == 'call' and str(x[1]).endswith('generic_err')
+
 def alternatives(e, table, aborts_table):
     """the tables are keyed by predicate, not by whether the refusal is an `Err` or a panic: `x.unwrap()` <-> `x?`,
     `a - b` (panicking) <-> `a.checked_sub(b)?` are the same refusal. Yields (table, entry-view) pairs to try."""
